@@ -797,6 +797,68 @@ theorem selectByRow_eq {T : Tree} (h : T.WF) {db : DB} (inv : NoOrphan T db) (c 
   unfold selectByRow
   rw [joinUp_eq h inv c i (byNeeded c kvs) (by simp [byNeeded])]
 
+/-! ## `set(**kw)` -/
+
+/-- the stored value of column `k` of class `a` for id `i` -/
+def cell (db : DB) (a i k : Nat) : Option Val := (db a i).map (fun r => r.vals k)
+
+theorem cell_update_same (db : DB) (a i k : Nat) (v : Val) (hrow : db.has a i = true) :
+    cell (updateRow db a i k v) a i k = some v := by
+  obtain ⟨r, hr⟩ := has_iff.mp hrow
+  simp [cell, updateRow_spec, hr]
+
+theorem cell_update_other (db : DB) (a i k : Nat) (v : Val) (a' j k' : Nat)
+    (hne : ¬ (a' = a ∧ j = i ∧ k' = k)) :
+    cell (updateRow db a i k v) a' j k' = cell db a' j k' := by
+  unfold cell
+  rw [updateRow_spec]
+  by_cases hc : a' = a ∧ j = i
+  · obtain ⟨rfl, rfl⟩ := hc
+    have hk : k' ≠ k := fun hk => hne ⟨rfl, rfl, hk⟩
+    cases db a' j <;> simp [hk]
+  · rw [if_neg hc]
+
+/-- `set(**kw)` with distinct names: every named cell ends up holding its value, every other
+    cell is unchanged -/
+theorem foldl_update_cells (i : Nat) :
+    ∀ (kvs : List (Nat × Nat × Val)) (db : DB),
+      (kvs.Pairwise (fun x y => ¬ (x.1 = y.1 ∧ x.2.1 = y.2.1))) →
+      (∀ x, x ∈ kvs → db.has x.1 i = true) →
+      (∀ x, x ∈ kvs → cell (kvs.foldl (fun d x => updateRow d x.1 i x.2.1 x.2.2) db) x.1 i x.2.1
+          = some x.2.2) ∧
+      (∀ a j k, (j ≠ i ∨ ∀ x, x ∈ kvs → ¬ (x.1 = a ∧ x.2.1 = k)) →
+          cell (kvs.foldl (fun d x => updateRow d x.1 i x.2.1 x.2.2) db) a j k = cell db a j k) := by
+  intro kvs
+  induction kvs with
+  | nil =>
+    intro db _ _
+    exact ⟨fun x hx => (by cases hx), fun _ _ _ _ => rfl⟩
+  | cons y rest ih =>
+    intro db hpw hrows
+    rw [List.pairwise_cons] at hpw
+    have hrows' : ∀ x, x ∈ rest → (updateRow db y.1 i y.2.1 y.2.2).has x.1 i = true := by
+      intro x hx
+      rw [(updateRow_shape db y.1 i y.2.1 y.2.2).has]
+      exact hrows x (List.mem_cons_of_mem _ hx)
+    obtain ⟨ih1, ih2⟩ := ih (updateRow db y.1 i y.2.1 y.2.2) hpw.2 hrows'
+    simp only [List.foldl_cons]
+    constructor
+    · intro x hx
+      rcases List.mem_cons.mp hx with rfl | hx
+      · rw [ih2 x.1 i x.2.1 (Or.inr (fun z hz hh => hpw.1 z hz ⟨hh.1.symm, hh.2.symm⟩))]
+        exact cell_update_same db _ _ _ _ (hrows x (List.mem_cons_self ..))
+      · exact ih1 x hx
+    · intro a j k hne
+      rw [ih2 a j k (by
+        rcases hne with hne | hne
+        · exact Or.inl hne
+        · exact Or.inr (fun x hx => hne x (List.mem_cons_of_mem _ hx)))]
+      apply cell_update_other
+      rintro ⟨rfl, rfl, rfl⟩
+      rcases hne with hne | hne
+      · exact hne rfl
+      · exact hne y (List.mem_cons_self ..) ⟨rfl, rfl⟩
+
 /-! ## the example hierarchy used by the non-vacuity examples of Props/C15
 
 `K0(2 cols) ← K1(1) ← {K3(1), K4(0 cols), K5(0 cols, not inheritable)}`, `K0 ← K2(1)`. -/
@@ -822,5 +884,10 @@ theorem T0_wf : T0.WF := by
     · split at hp
       · cases hp; rfl
       · cases hp
+
+/-- a K3, a K5 (column-less, reached through the shunt) and a K2 -/
+def db0 : DB := run T0
+  [.create 3 1 (fun a k => (10 * a + k : Nat)), .create 5 2 (fun _ _ => 7), .create 2 3 (fun _ _ => 1)]
+  DB.empty
 
 end SqlObjVerif.Inherit
